@@ -110,6 +110,13 @@ def one(ctx, rng, xr, frequency, direction, construct_partition):
     nd = int(rng.choice([7, 8, 12, 13, 16, 21, 24, 28, 35, 36, 64, 72, 120, 128, 360]))
     dd = 360.0 / nd
     th = float(rng.choice([0.0, dd / 2, rng.uniform(0, dd)])) + dd * np.arange(nd)
+    u_ = rng.random()
+    if u_ < 0.15:
+        th = np.roll(th, 1)                                  # same circle stored from its last label: seam between the first two
+    elif u_ < 0.25:
+        th = np.roll(th, int(rng.integers(1, nd)))
+    elif u_ < 0.32:
+        th = th[::-1].copy()
     dq = xr.DataArray(th, dims=["dir"], coords={"dir": th}) if as_da else th
     dmode = str(rng.choice(["anywhere", "seam"]))
     dmv = rng.uniform(0, 360, max(nx, 1)) if dmode == "anywhere" else (rng.uniform(-1, 1, max(nx, 1)) % 360)
